@@ -60,6 +60,11 @@ TER_FORMS = [("call", "{F}({A}, {B}, {C})"), ("bang", "{F} ! {A}, {B}, {C}"), ("
 _G = None
 
 
+# callables with internal state (a memo table) written inline, so that every form starts from a fresh one: a form must not
+# depend on what an earlier form left in the cache. One-argument forms only (an expression cannot stand in infix position).
+INLINE_UNARY = ["(memoize(\\a -> [a]))", "(memoize(\\a -> str(a)))", "(memoize(\\a -> a))", "(memoize(len))", "(memoize(\\...xs -> xs))"]
+
+
 def fns():
     global _G
     if _G is None:
@@ -83,6 +88,12 @@ def cases(tier, shard, nshards):
     sub3 = SUB3 if tier != "quick" else SUB3_QUICK
     opts = {"step_ms": 400, "fuel": 20000, "compact": True, "cap": 12, "hang_retry": False}   # a hang only drops the tuple from the comparison
     cnt = 0
+    for f in INLINE_UNARY:
+        for a in [n for n, _ in POOL]:
+            cnt += 1
+            if cnt % nshards != shard:
+                continue
+            yield Case([t.format(F=f, A="p_" + a) for _, t in UN_FORMS], {"ar": 1, "fn": f, "args": [a]}, pre=PRE, opts=opts)
     for f in fns():
         for a in [n for n, _ in POOL]:
             cnt += 1
